@@ -16,7 +16,7 @@ spec = {
    "Partial proof (integers: parse_print_Z; single-line strings: single_roundtrip_dq/sq + single_lexes; multi-line strings: multi_roundtrip; numbers: spellings_read, fixed_roundtrip, read_print_pos_arg, tie K-num); constants, mark names and the printing contexts are decided on the real printers/readers for generated and bounded-exhaustive values against an explicit `has_exact_form` predicate; residue recorded as known findings."),
  "C05": (tv, "Coq-verified validator against the inlined program (Lang/Inline.v); import layouts in real directories",
    "compiled macro programs are decided against cfg_of_prog(inline p) by the verified checker; definition orders permuted; import resolution checked on real temporary directory layouts."),
- "C06": (tv, "execution on generated + hand-written hard flow graphs; exactness of the fallback against the renumbered input",
+ "C06": (tv, "execution on generated + hand-written hard flow graphs; exactness of the fallback against the renumbered input (C07 theorems); Coq theorem that every fallback text is dispatched to the SsbScript compiler (Text/Meta.v, tie K-meta)",
    "convert() must answer on every generated well-formed input (no exception, no timeout); fallback texts must carry the marker first and compile back to the input op for op (positions renumbered). 'Never raises' is exploration."),
  "C07": ("proof", "Coq proof of the SsbScript round trip on a statement-list model + correspondence of the model with the real printer/compiler + direct round trip on the real code",
    "Script/Proofs.v script_roundtrip: compile_script(print_script P) = renumber P for every routine set with unique offsets and in-range integer targets; Script/Renumber.v renumber_same_cfg: renumbering keeps the flow graph. The model's statement lists and compiled ops are compared with the real text (parsed by the real SsbScript parser) and the real compiler."),
